@@ -152,9 +152,9 @@ private theorem fieldOf_fieldJ (s : SchemaD) (f : FieldD) (h : f.type.size ≤ t
     simp [fieldOf, fieldJ, normField, J.strD, J.getD, J.get?, J.asStr?, J.arrD, J.asArr?, J.boolD, J.asBool?, ht, hd, hp, optStr, jOptStr,
       List.map_map, hargs]
 
-private theorem enumValOf_enumValueJ (v : EnumValD) : enumValOf (enumValueJ v) = { v with value := .null } := by
+private theorem enumValOf_enumValueJ (v : EnumValD) : enumValOf (enumValueJ v) = normEnumVal v := by
   cases hd : v.desc <;> cases hp : v.deprecated <;>
-    simp [enumValOf, enumValueJ, J.strD, J.getD, J.get?, J.asStr?, J.boolD, J.asBool?, hd, hp, optStr, jOptStr]
+    simp [enumValOf, enumValueJ, normEnumVal, J.strD, J.getD, J.get?, J.asStr?, J.boolD, J.asBool?, hd, hp, optStr, jOptStr]
 
 private theorem directiveOf_directiveJ (s : SchemaD) (d : DirectiveD) (ha : argsFit d.args = true) :
     directiveOf (directiveJ s d) = normDirective s d := by
@@ -195,7 +195,7 @@ private theorem typeOf_fullType (s : SchemaD) (t : TypeD)
     intro l; induction l with
     | nil => rfl
     | cons a l ih => simp [name_of_namedRef, ih]
-  have hvals : t.values.map (enumValOf ∘ enumValueJ) = t.values.map (fun v => { v with value := .null }) := by
+  have hvals : t.values.map (enumValOf ∘ enumValueJ) = t.values.map normEnumVal := by
     apply List.map_congr_left; intro v _; exact enumValOf_enumValueJ v
   have hnames' := hnames
   simp only [J.strD, J.get?] at hnames'
